@@ -52,9 +52,58 @@ def variants(topo, rng, n_perm):
         po.append(("path", ([l.u, l.name, l.v], on, dn)))
     po += [("origin", n) for n in topo.origins if n not in done_o] + [("dest", n) for n in topo.dests if n not in done_d]
     V.append(("path-wise", {"order": po}))
+    # the same calls as the base construction, but every lookup is read and the network validated after every call
+    V.append(("reads-interleaved", {"order": list(base), "touch": True}))
+    V.append(("reads-interleaved-reversed", {"order": list(reversed(base)), "touch": True}))
     V.append(("renamed", {"rename": lambda s: "zz_" + s[::-1] + "_" + str(len(s))}))
     V.append(("turnrates-scaled", {"scale": True}))
     return V
+
+
+def touch_all(net):
+    """read every lookup the network offers and validate it (results ignored)."""
+    for name in ("nodes_by_name", "links_by_name", "nodes_by_link", "origins", "origins_by_name", "origins_by_node",
+                 "destinations", "destinations_by_name", "destinations_by_node"):
+        getattr(net, name)
+    list(net.links)
+    for n in list(net.nodes):
+        list(net.in_links(n))
+        list(net.out_links(n))
+    list(net.elements)
+    try:
+        net.is_valid()
+    except Exception:  # noqa
+        pass
+
+
+def build_variant(topo, P, var):
+    if not var.get("touch"):
+        return T_.build(topo, P, order=var.get("order"), rename=var.get("rename"))
+    # one call at a time, lookups read in between
+    built = None
+    order = var["order"]
+    import sym_metanet  # noqa
+    built = T_.build(topo, P, order=[])
+    for stepi in order:
+        _apply_one(topo, built, stepi)
+        touch_all(built.net)
+    return built
+
+
+def _apply_one(topo, built, stepi):
+    kind, key = stepi
+    net = built.net
+    if kind == "node":
+        net.add_node(built.nodes[key])
+    elif kind == "link":
+        l = topo.link(key)
+        net.add_link(built.nodes[l.u], built.links[key], built.nodes[l.v])
+    elif kind == "origin":
+        net.add_origin(built.origins[topo.origins[key][0]], built.nodes[key])
+    elif kind == "dest":
+        net.add_destination(built.dests[topo.dests[key][0]], built.nodes[key])
+    else:
+        raise ValueError(kind)
 
 
 def scaled_params(topo, P, mul):
@@ -80,7 +129,7 @@ def work(item):
             X = runs.sym_inputs(topo, style)
             _, nA = runs.step_numpy(topo, P, X)
             P2 = scaled_params(topo, runs.sym_params(topo), lambda c, b: S.var(c) * b) if var.get("scale") else runs.sym_params(topo)
-            built = T_.build(topo, P2, order=var.get("order"), rename=var.get("rename"))
+            built = build_variant(topo, P2, var)
             ic = runs.init_conditions(built, runs.sym_inputs(topo, style))
             built.net.step(init_conditions=ic, engine=runs.numpy_engine(), **runs.NOFLAGS, **T_.model_kwargs(topo, P2))
             return nA, runs.collect_next(topo, built), built.net.is_valid()[0]
@@ -156,7 +205,7 @@ def cas_variant(topo, st, numeric, var):
     """compile the variant network.  With scaling, beta parameters stay the declared symbols and are
     scaled when bound (the function is the same; the *values* fed differ by the factor)."""
     P, symbolic = runs.cas_params(topo, st, numeric)
-    built = T_.build(topo, P, order=var.get("order"), rename=var.get("rename"))
+    built = build_variant(topo, P, var)
     eng = runs.casadi_engine(st)
     kw = T_.model_kwargs(topo, P)
     built.net.step(engine=eng, **runs.NOFLAGS, **kw)
@@ -176,7 +225,7 @@ def replay_variant(topo, style, eng, env, key, i, label, seed, n_perm, numeric, 
         ra, ea = numrun.numpy_float(topo, env, style)
         P = numrun.float_params(topo, env2)
         try:
-            built = T_.build(topo, P, order=var.get("order"), rename=var.get("rename"))
+            built = build_variant(topo, P, var)
             built.net.step(init_conditions=runs.init_conditions(built, runs.float_inputs(topo, env2, style)), engine=runs.numpy_engine(),
                            **runs.NOFLAGS, **T_.model_kwargs(topo, P))
             nb = runs.collect_next(topo, built)
